@@ -23,6 +23,10 @@ type Params struct {
 	Present int // index into the history of the presented ID; -1 unset; -2 never issued ("zz"); -3 never issued, numeric, larger than any; -4 the ID to be issued next
 	TwoSubs bool
 	Slow    bool
+	// Clock (ValidReplayer only): TTL 2s; the i-th history publish happens at Clock[i] (tenths of a second), the
+	// subscription and the live publishes at Clock[H]. nil: time stands still (nothing expires).
+	Clock []int
+	AllA  bool // every history message is published to topic a
 }
 
 func (p Params) Name() string {
@@ -30,7 +34,11 @@ func (p Params) Name() string {
 	if p.Valid {
 		kind = "valid"
 	}
-	return fmt.Sprintf("%s-auto%v-h%d-present%d-two%v-slow%v", kind, p.Auto, p.H, p.Present, p.TwoSubs, p.Slow)
+	ck := ""
+	if p.Clock != nil {
+		ck = fmt.Sprintf("-clock%v-allA%v", p.Clock, p.AllA)
+	}
+	return fmt.Sprintf("%s-auto%v-h%d-present%d-two%v-slow%v%s", kind, p.Auto, p.H, p.Present, p.TwoSubs, p.Slow, ck)
 }
 
 type world struct {
@@ -40,6 +48,14 @@ type world struct {
 	Shut error
 	P    Params
 	IDs  []string // IDs of the history in publish order
+}
+
+// allA makes every history message go to topic a (set per scenario through Params.AllA; read-only afterwards).
+func topicsOfP(p Params, k int) []string {
+	if p.AllA {
+		return []string{"a"}
+	}
+	return topicsOf(k)
 }
 
 func topicsOf(k int) []string {
@@ -61,13 +77,18 @@ func body(p Params) func() {
 		w := &world{JL: &jh.JoeLog{}, P: p}
 		vrt.SetUser(w)
 		var inner sse.Replayer
+		now := 0 // tenths of a second
 		if p.Valid {
-			v, err := sse.NewValidReplayer(time.Hour, p.Auto)
+			ttl := time.Hour
+			if p.Clock != nil {
+				ttl = 2 * time.Second
+			}
+			v, err := sse.NewValidReplayer(ttl, p.Auto)
 			if err != nil {
 				panic(err)
 			}
 			base := time.Date(2030, 1, 1, 0, 0, 0, 0, time.UTC)
-			v.Now = func() time.Time { return base }
+			v.Now = func() time.Time { return base.Add(time.Duration(now) * 100 * time.Millisecond) }
 			inner = v
 		} else {
 			f, err := sse.NewFiniteReplayer(p.N, p.Auto)
@@ -86,11 +107,17 @@ func body(p Params) func() {
 		}
 		// history, sequentially
 		for k := 0; k < p.H; k++ {
-			r := &jo.Msg{Tag: fmt.Sprintf("h%d", k), Topics: topicsOf(k), Pub: 0, Seq: k}
+			if p.Clock != nil {
+				now = p.Clock[k]
+			}
+			r := &jo.Msg{Tag: fmt.Sprintf("h%d", k), Topics: topicsOfP(p, k), Pub: 0, Seq: k}
 			w.Msgs = append(w.Msgs, r)
 			r.Err = j.Publish(mk(r.Tag, k), r.Topics)
 			r.Returned = true
 			w.IDs = append(w.IDs, idOf(p, k))
+		}
+		if p.Clock != nil {
+			now = p.Clock[p.H]
 		}
 		nsub := 1
 		if p.TwoSubs {
@@ -159,6 +186,38 @@ func expectReplay(p Params) func(s *jo.Sub, before []jo.PutRec) ([]string, bool)
 		if !s.HasLastID {
 			return nil, true
 		}
+		if p.Clock != nil {
+			// entries put at Clock[i] expire 2 s later; replay happens at Clock[H] (later puts are at that time too)
+			at := func(i int) int {
+				if i < p.H {
+					return p.Clock[i]
+				}
+				return p.Clock[p.H]
+			}
+			nowT := p.Clock[p.H]
+			pos := -1
+			for i, r := range before {
+				if strings.HasSuffix(r.Out, "#"+s.LastID) {
+					pos = i
+				}
+			}
+			if pos < 0 {
+				if p.Auto {
+					return nil, false
+				}
+				return nil, true
+			}
+			if at(pos)+20 <= nowT {
+				return nil, false // the presented event has expired: only the universal clauses apply
+			}
+			var want []string
+			for i := pos + 1; i < len(before); i++ {
+				if at(i)+20 > nowT && has(before[i].Topics, "a") {
+					want = append(want, before[i].Out)
+				}
+			}
+			return want, true
+		}
 		pos := -1
 		for i, r := range buf {
 			if strings.HasSuffix(r.Out, "#"+s.LastID) {
@@ -188,6 +247,15 @@ func expectReplay(p Params) func(s *jo.Sub, before []jo.PutRec) ([]string, bool)
 		}
 		return want, true
 	}
+}
+
+func has(ts []string, t string) bool {
+	for _, x := range ts {
+		if x == t {
+			return true
+		}
+	}
+	return false
 }
 
 func check(p Params) func(r *vrt.Result) string {
@@ -273,12 +341,32 @@ func Scenarios(tier string) []run.Scenario {
 			}
 		}
 	}
+	// ValidReplayer with a moving clock (TTL 2 s, default GCInterval 0.5 s): events expire, a collection is due
+	// at the subscription, the buffer shrinks
+	clocks := [][]int{
+		{0, 0, 0, 0, 0, 15, 15, 21},                 // five expired, two alive, collection due: the ring of 8 shrinks to 4
+		{0, 0, 0, 0, 0, 0, 0, 0, 0, 15, 21},         // nine expired (ring of 16), one alive
+		{0, 5, 10, 15, 20, 25, 26},                  // staggered: three expired at 26
+		{0, 0, 0, 19},                               // nothing expired yet, collection due
+		{0, 0, 0, 0, 0, 0, 0, 0, 0, 15, 15, 15, 21}, // nine expired, three alive: the ring of 16 shrinks to 8
+		{0, 0, 0, 0, 0, 12, 14, 16, 21},             // five expired, three alive with different expiries
+	}
+	for _, ck := range clocks {
+		h := len(ck) - 1
+		for _, auto := range []bool{false, true} {
+			for _, allA := range []bool{false, true} {
+				for present := -1; present < h; present++ {
+					add(Params{Valid: true, Auto: auto, H: h, Present: present, Clock: ck, AllA: allA})
+				}
+			}
+		}
+	}
 	return out
 }
 
 var Check = &run.Check{
 	ID: "C04", Level: "model_checking",
-	Rule: "Scenarios: real FiniteReplayer (N=2,3; thorough 2,3,4) / ValidReplayer behind a recording wrapper, manual and automatic IDs, a history of h = 0..2N+1 (valid: 0..7, thorough 9) sequential publishes on alternating topics, then one or two subscribers presenting every ID of the history (oldest, middle, newest, evicted), a never-issued ID (text, large number) or none, racing a publisher of three more messages; all interleavings (unbounded, state-key pruning). Reference: a list of the last N accepted events.",
+	Rule: "Scenarios: real FiniteReplayer (N=2,3; thorough 2,3,4) / ValidReplayer behind a recording wrapper, manual and automatic IDs, a history of h = 0..2N+1 (valid: 0..7, thorough 9) sequential publishes on alternating topics, then one or two subscribers presenting every ID of the history (oldest, middle, newest, evicted), a never-issued ID (text, large number) or none, racing a publisher of three more messages; plus the ValidReplayer on a moving clock (events expire, a collection is due at the subscription, the ring shrinks); all interleavings (unbounded, state-key pruning). Reference: a list of the last N accepted events.",
 	Assumptions: []string{
 		"schedules are explored at the granularity of synchronisation operations under sequential consistency (DESIGN.md 2.1)",
 		"with automatic IDs, presenting an ID that was issued but already evicted is outside the property: only the universal clauses (order, uniqueness, topic match, boundary) are checked there",
